@@ -3,9 +3,10 @@
 # Triage helper: evaluates a candidate change WITHOUT touching /repo. A copy of the simulator is
 # built against the scratch worktree /tmp/wt-eval (a git worktree of /repo HEAD) with the patch
 # applied; the target property's check runs at full quick scale, all others at a reduced scale.
-# Final confirmation of kept changes is done with tools/try_mutant.sh (git -C /repo apply).
+# Final confirmation of kept changes is done with tools/confirm_seeded.sh (git -C /repo apply).
+# EVAL_WT / EVAL_DIR select another scratch worktree / build directory (parallel use).
 patch="$1"; target="$2"; scale="${3:-0.25}"
-WT=/tmp/wt-eval; E=/tmp/eval
+WT=${EVAL_WT:-/tmp/wt-eval}; E=${EVAL_DIR:-/tmp/eval}
 [ -d $WT ] || git -C /repo worktree add -q $WT HEAD || exit 3
 git -C $WT checkout -q --detach $(git -C /repo rev-parse HEAD) 2>/dev/null
 git -C $WT checkout -q -- . ; git -C $WT clean -fdq
